@@ -15,6 +15,7 @@
     batch short) is an oracle input [orc], so every theorem holds for every batching.
     Definitions only; proofs are in Proofs/ClusterReadProofs.v. *)
 From Coq Require Import NArith List Bool.
+From SV Require Import Model.Watermark.
 Import ListNotations.
 Open Scope N_scope.
 
@@ -206,3 +207,16 @@ Definition cr_stream_rev_commits (x : N) (log : cr_log) : list (list (N * N)) :=
 (** the stored event at partition sequence [s] *)
 Definition cr_event_at (log : cr_log) (s : N) : option (N * N) :=
   match nth_error (cr_counts log) (N.to_nat s) with Some c => Some (s, c) | None => None end.
+
+(** ---- the watermark of a running node ------------------------------------------------------------------- *)
+(** the node starts on [log] (ConfirmationActor::new = wm_initialize on the on-disk counts, no state file) and
+    then receives confirmation reports (UpdateConfirmation, one (version, count) per event of each confirmed
+    transaction, in delivery order) *)
+Definition cr_live_state (rf : N) (log : cr_log) (reports : list (N * N)) : wm_state :=
+  fold_left (wm_step rf) reports (wm_initialize rf wm_init (cr_counts log)).
+Definition cr_live_watermark (rf : N) (log : cr_log) (reports : list (N * N)) : N :=
+  wm_mark (cr_live_state rf log reports).
+
+(** the reports one ConfirmTransaction for the transaction at sequences first .. first+n-1 produces *)
+Fixpoint cr_confirm_reports (first : N) (n : nat) (count : N) : list (N * N) :=
+  match n with O => [] | S m => (first + 1, count) :: cr_confirm_reports (first + 1) m count end.
